@@ -226,22 +226,34 @@ namespace bxdecay0 {
     return DBDMODE_UNDEF;
   }
 
+  namespace {
+
+    /// Record of a mode of the catalogue (a mode the catalogue does not contain, e.g. DBDMODE_UNDEF, has none)
+    const dbd_record & dbd_record_of(const dbd_mode_type dbd_mode_)
+    {
+      const std::map<dbd_mode_type, dbd_record> & m = dbd_modes();
+      const auto found = m.find(dbd_mode_);
+      if (found == m.end()) {
+        throw std::logic_error("bxdecay0::dbd_modes: No record for DBD mode [" + std::to_string(dbd_mode_) + "]!");
+      }
+      return found->second;
+    }
+
+  } // namespace
+
   std::string dbd_mode_label(const dbd_mode_type dbd_mode_)
   {
-    const std::map<dbd_mode_type, dbd_record> & m = dbd_modes();
-    return m.find(dbd_mode_)->second.unique_label;
+    return dbd_record_of(dbd_mode_).unique_label;
   }
 
   std::string dbd_mode_description(const dbd_mode_type dbd_mode_)
   {
-    const std::map<dbd_mode_type, dbd_record> & m = dbd_modes();
-    return m.find(dbd_mode_)->second.description;
+    return dbd_record_of(dbd_mode_).description;
   }
 
   legacy_modebb_type dbd_legacy_mode(const dbd_mode_type dbd_mode_)
   {
-    const std::map<dbd_mode_type, dbd_record> & m = dbd_modes();
-    return m.find(dbd_mode_)->second.legacy_modebb;
+    return dbd_record_of(dbd_mode_).legacy_modebb;
   }
 
   const std::set<dbd_mode_type> & dbd_modes_with_esum_range()
